@@ -423,6 +423,27 @@ func (e *storeEnv) compareTx(what string, lt *ledTx, tx *store.Tx) {
 		if !bytes.Equal(te.Key(), le.Key) || !bytes.Equal(md, le.MD) || !vlenOK || te.HVal() != sha256.Sum256(le.Value) {
 			r.Violation("immutable-entries", "", "%s: entry %d of tx %d changed: key %q md %x vlen %d, acknowledged key %q md %x vlen %d", what, i, lt.ID, te.Key(), md, te.VLen(), le.Key, le.MD, len(le.Value))
 		}
+		// the single-entry read of the same (transaction, key)
+		{
+			var se *store.TxEntry
+			var sh *store.TxHeader
+			var serr error
+			skip := r.Bool()
+			pv, stack := r.Catch(func() { se, sh, serr = e.st.ReadTxEntry(lt.ID, le.Key, skip) })
+			if pv != nil {
+				r.Violation("read-panic", "", "%s: ReadTxEntry(%d, %q) panicked: %v\n%s", what, lt.ID, le.Key, pv, stack)
+			}
+			if serr != nil {
+				r.Violation("read-tx-entry", "", "%s: ReadTxEntry(%d, %q) failed: %v", what, lt.ID, le.Key, serr)
+			}
+			var smd []byte
+			if se.Metadata() != nil {
+				smd = se.Metadata().Bytes()
+			}
+			if sh.ID != lt.ID || sh.PrevAlh != lt.Hdr.PrevAlh || sh.Ts != lt.Hdr.Ts || (!skip && sh.Alh() != lt.Alh) || !bytes.Equal(se.Key(), le.Key) || !bytes.Equal(smd, le.MD) || se.VLen() != te.VLen() || se.HVal() != te.HVal() || se.VOff() != te.VOff() {
+				r.Violation("immutable-entries", "read-tx-entry", "%s: ReadTxEntry(%d, %q) returned key %q md %x vlen %d voff %d of tx %d; the transaction holds key %q md %x vlen %d voff %d (integrity check skipped, so the entries hash of the header is not rebuilt: %v; accumulated hash equal: %v, value hash equal: %v)", what, lt.ID, le.Key, se.Key(), smd, se.VLen(), se.VOff(), sh.ID, le.Key, le.MD, te.VLen(), te.VOff(), skip, sh.Alh() == lt.Alh, se.HVal() == te.HVal())
+			}
+		}
 		if lt.ID < e.truncatedBefore {
 			continue
 		}
@@ -602,13 +623,15 @@ func (e *storeEnv) verifyIndex(what string, n uint64) {
 	type scanCase struct {
 		desc   bool
 		prefix string
+		off    int // live keys to skip first
 	}
 	var scans []scanCase
 	for _, desc := range []bool{false, true} {
-		scans = append(scans, scanCase{desc, ""})
+		scans = append(scans, scanCase{desc, "", 0})
+		scans = append(scans, scanCase{desc, "", 1 + e.r.Intn(4)})
 	}
 	for _, p := range []string{"ka", "ka/y", "k"} {
-		scans = append(scans, scanCase{e.r.Bool(), p})
+		scans = append(scans, scanCase{e.r.Bool(), p, e.r.Pick(0, 0, 1, 2)})
 	}
 	for _, sc := range scans {
 		desc := sc.desc
@@ -616,7 +639,7 @@ func (e *storeEnv) verifyIndex(what string, n uint64) {
 		if err != nil {
 			e.idxViol("index-snapshot", "%s: SnapshotMustIncludeTxID(%d) failed: %v", what, n, err)
 		}
-		rd, err := snap.NewKeyReader(store.KeyReaderSpec{DescOrder: desc, Prefix: []byte(sc.prefix), Filters: []store.FilterFn{store.IgnoreDeleted, store.IgnoreExpired}})
+		rd, err := snap.NewKeyReader(store.KeyReaderSpec{DescOrder: desc, Prefix: []byte(sc.prefix), Offset: uint64(sc.off), Filters: []store.FilterFn{store.IgnoreDeleted, store.IgnoreExpired}})
 		if err != nil {
 			snap.Close()
 			e.idxViol("index-scan", "%s: NewKeyReader failed: %v", what, err)
@@ -658,8 +681,13 @@ func (e *storeEnv) verifyIndex(what string, n uint64) {
 		if desc {
 			sort.Sort(sort.Reverse(sort.StringSlice(want)))
 		}
+		if sc.off >= len(want) {
+			want = nil
+		} else {
+			want = want[sc.off:]
+		}
 		if fmt.Sprint(got) != fmt.Sprint(want) {
-			e.idxViol("index-scan", "%s: scan (desc=%v, prefix %q) returned keys %q, the live keys of the log are %q", what, desc, sc.prefix, got, want)
+			e.idxViol("index-scan", "%s: scan (desc=%v, prefix %q, offset %d) returned keys %q, the live keys of the log after the offset are %q", what, desc, sc.prefix, sc.off, got, want)
 		}
 	}
 }
